@@ -12,7 +12,7 @@ import struct
 PROP = "C19"
 META = {
  "engine": "F-pure-functions",
- "text": "Coq theorems (Props/C19.v, closed under the global context): (1) the MIDI channel-voice encoding used for note_on/note_off/control_change/program_change/aftertouch/pitchwheel is decoded back to the same message for ALL fields in range (note, velocity, value, program 0..127, channel 0..15, pitch -8192..8191), is injective, rejects exactly the out-of-range requests, and a float argument is encoded as its truncation toward zero (Python int()); (2) the OSC 1.0 encoding (NUL-padded strings, type-tag string, big-endian int32, 4-byte float payloads) is decoded back to the same address and argument list for EVERY address and EVERY finite argument list of ints, floats and strings (induction, unbounded), hence is injective, and the device's note_on/note_off/control requests are the documented /note [note, velocity, channel] and /control [control, value, channel] forms; (3) for EVERY sequence of MPE note_on/note_off/expression calls with at most 15 notes held at once, every note_on is sent on a channel in 1..15 that no other held note uses, note_off and per-note expression go out on the note's channel, and the release frees it (invariant by induction over the call sequence); (4) for EVERY sequence of tick() runs and requests on the MIDI-file device the running sum of the written delta times puts each message at exactly the number of tick() calls that preceded its request, whatever the gap and the ticks_per_beat (exact beat arithmetic with round-half-even is the identity on tick differences), and rejected or not-implemented requests leave the timing untouched; (5) the k-th datagram of ANY history of OSC requests decodes to the k-th request and requests that differ only in the TYPE of an argument (int 2 / float 2.0 / string '2') never share a datagram. The models are tied to the repository on every run: the real MidiOutputDevice/MPEOutputDevice (fake mido port), OSCOutputDevice (loop-back UDP socket) and MidiFileOutputDevice (file read back with mido) are driven directly and through Timeline/Track.perform_event; the captured bytes are compared with the model inside Coq (vm_compute) and OSC datagrams are decoded by the Coq decoder; an independent Python oracle (status-byte table, OSC 1.0 parser, channel-uniqueness tracker) judges every result and supplies the failing input.",
+ "text": "Coq theorems (Props/C19.v, closed under the global context): (1) the MIDI channel-voice encoding used for note_on/note_off/control_change/program_change/aftertouch/pitchwheel is decoded back to the same message for ALL fields in range (note, velocity, value, program 0..127, channel 0..15, pitch -8192..8191), is injective, rejects exactly the out-of-range requests, and a float argument is encoded as its truncation toward zero (Python int()); (2) the OSC 1.0 encoding (NUL-padded strings, type-tag string, big-endian int32, 4-byte float payloads) is decoded back to the same address and argument list for EVERY address and EVERY finite argument list of ints, floats and strings (induction, unbounded), hence is injective, and the device's note_on/note_off/control requests are the documented /note [note, velocity, channel] and /control [control, value, channel] forms; (3) for EVERY sequence of MPE note_on/note_off/expression calls with at most 15 notes held at once, every note_on is sent on a channel in 1..15 that no other held note uses, note_off and per-note expression go out on the note's channel, and the release frees it (invariant by induction over the call sequence); (4) for EVERY sequence of tick() runs and requests on the MIDI-file device the running sum of the written delta times puts each message at exactly the number of tick() calls that preceded its request, whatever the gap and the ticks_per_beat (exact beat arithmetic with round-half-even is the identity on tick differences), and rejected or not-implemented requests leave the timing untouched; (5) the k-th datagram of ANY history of OSC requests decodes to the k-th request and requests that differ only in the TYPE of an argument (int 2 / float 2.0 / string '2') never share a datagram. The models are tied to the repository on every run: the real MidiOutputDevice/MPEOutputDevice (fake mido port), OSCOutputDevice (loop-back UDP socket) and MidiFileOutputDevice (file read back with mido) are driven directly and through Timeline/Track.perform_event; the captured bytes are compared with the model inside Coq (vm_compute) and OSC datagrams are decoded by the Coq decoder; an independent Python oracle (status-byte table, OSC 1.0 parser, channel-uniqueness tracker) judges every result and supplies the failing input. Several devices alive in one process (IO/MultiDevice.v, the product of independent device machines): in ANY interleaving of calls to any number of devices every device produces exactly what its own call subsequence produces alone (C19_multi_noninterference, any step function), and every MPE device with well-formed own calls keeps each of ITS held notes on a channel of its own whatever the other devices hold (C19_mpe_multi); checked on every run with 2-4 MPE / MIDI-port / OSC device objects on their own fake ports and sockets, created up-front or after other devices were used, calls interleaved, each device judged on its own calls and nothing allowed on another device's port.",
  "note": "Trusted: Coq kernel + VM; the Python harness; mido's and python-osc's serialisers and the loop-back socket are exercised on every run but not modelled beyond the byte formats; struct.pack('>f') supplies the float32 payload bytes the OSC model carries (the oracle checks them independently against the exact value). Delta times: the absolute tick of every saved message is judged (integers) for gaps up to 250 beats at resolutions 7..10080; the float arithmetic of the file device is not modelled, the closing dummy note_off is compared with the model only (trailing silence is C16's). A MIDI-file device class that does not implement control / program_change / pitch_bend itself (the pinned one inherited no-ops; repaired) is reported: the property lists these requests for the file too. Not covered: OSC int64/blob/bool arguments (bools are sent inside histories but not judged); MPE calls that press a note index that is already down, more than 15 simultaneous notes, and note_off of a note that is not down beyond 'nothing is sent'; release velocity of note_off (not fixed by the property). Requests with out-of-range fields are outside the property: the model says mido rejects them and they are compared only when the implementation rejects them too.",
 }
 HEADER = """From Isobar Require Import Base.Prelude IO.MidiBytes IO.Osc IO.Mpe IO.FileWire.
@@ -1119,8 +1119,220 @@ def gen_timeline_case(rng, device, kind):
                                          "osc_params": [[gen_osc_arg(rng) for _ in range(rng.randint(0, 5))] for _ in range(n)], "duration": 1}}
 
 
+# ---- several device objects alive in one process, interleaved calls -----------------------------------------------
+# The dimension: the state of a device object must be ITS state.  k devices (MPE / MIDI port / OSC, each on its own fake
+# port or socket) created up-front or lazily (after other devices have been used, even dropped with notes held), calls
+# interleaved in bursts.  Judged per device on its OWN call subsequence (oracle: the single-device oracles; model:
+# IO/MultiDevice.v, the product of independent machines, C19_multi_noninterference / C19_mpe_multi), plus: nothing may
+# reach the port or socket of another device.
+HEADER_MULTI = HEADER + "From Isobar Require Import IO.MultiDevice.\n"
+DEVCLASS = {"mpe": "MPEOutputDevice", "midi": "MidiOutputDevice", "osc": "OSCOutputDevice"}
+
+
+def multi_snippet(case):
+    lines = ["import mido, socket", "class P:", "    name = 'fake'; owner = None",
+             "    def send(self, m): print('   port of device', self.owner, 'received', m.bytes())",
+             "mido.open_output = lambda *a, **k: P()",
+             "from isobar.io.mpe.output import MPEOutputDevice", "from isobar.io.midi.output import MidiOutputDevice",
+             "from isobar.io.osc.output import OSCOutputDevice", "dev, h, sock = {}, {}, {}",
+             "def make(d, kind):",
+             "    if kind == 'osc':",
+             "        sock[d] = socket.socket(socket.AF_INET, socket.SOCK_DGRAM); sock[d].bind(('127.0.0.1', 0)); sock[d].settimeout(0.2)",
+             "        dev[d] = OSCOutputDevice('127.0.0.1', sock[d].getsockname()[1])",
+             "    else:",
+             "        dev[d] = (MPEOutputDevice if kind == 'mpe' else MidiOutputDevice)('fake'); dev[d].midi.owner = d",
+             "    h[d] = {}"]
+    made = set()
+    if not case.get("lazy"):
+        for d, k in enumerate(case["devs"]):
+            lines.append("make(%d, %r)" % (d, k)); made.add(d)
+    for d, c in case["calls"]:
+        if d not in made:
+            lines.append("make(%d, %r)      # created now, after the calls above" % (d, case["devs"][d])); made.add(d)
+        k = case["devs"][d]
+        if k == "mpe":
+            kk = c[0]
+            if kk == 0:
+                lines.append("print('device %d note_on(%d, %d)'); h[%d][%d] = dev[%d].note_on(%d, %d)" % (d, c[1], c[2], d, c[1], d, c[1], c[2]))
+            elif kk == 1:
+                lines.append("print('device %d note_off(%d)'); dev[%d].note_off(%d)" % (d, c[1], d, c[1]))
+            elif kk == 5:
+                lines.append("print('device %d handle(%d).note_off()'); h[%d][%d].note_off()" % (d, c[1], d, c[1]))
+            elif kk == 2:
+                lines.append("print('device %d handle(%d).pitch_bend(%d)'); h[%d][%d].pitch_bend(%d)" % (d, c[1], c[2], d, c[1], c[2]))
+            elif kk == 3:
+                lines.append("print('device %d handle(%d).aftertouch(%d)'); h[%d][%d].aftertouch(%d)" % (d, c[1], c[2], d, c[1], c[2]))
+            else:
+                lines.append("print('device %d handle(%d).control(%d, %d)'); h[%d][%d].control(%d, %d)" % (d, c[1], c[2], c[3], d, c[1], c[2], c[3]))
+        elif k == "midi":
+            lines.append("print('device %d %s'); dev[%d].%s(%s)" % (d, c["op"], d, c["op"], ", ".join(pyrepr(x) for x in c["args"])))
+        else:
+            call = osc_snippet(c).splitlines()[-2].replace("d.", "dev[%d]." % d, 1)
+            lines.append("print('device %d', %r); %s; print('   socket of device %d received', sock[%d].recv(65536))" % (d, call, call, d, d))
+    return "\n".join(lines)
+
+
+def judge_multi(run, cases, results):
+    terms, meta = [], []
+    for case, res in zip(cases, results):
+        run.nontrivial("multi " + json.dumps(case, sort_keys=True))
+        run.dist("multi.cases")
+        run.dist("multi.%s" % case.get("stratum", "?"))
+        run.dist("multi.devices=%d" % len(case["devs"]))
+        run.dist("multi.created-%s" % ("lazily (after other devices were used)" if case.get("lazy") else "up-front"))
+        run.dist("multi.calls", len(case["calls"]))
+        per = {}
+        for i, ((d, c), r) in enumerate(zip(case["calls"], res)):
+            per.setdefault(d, []).append((i, c, r))
+        bad = None            # (index in the interleaved sequence, kind, site, detail)
+        for i, ((d, c), r) in enumerate(zip(case["calls"], res)):
+            run.count()
+            if r.get("stray"):
+                bad = (i, "multi-stray-message", DEVCLASS[case["devs"][d]],
+                       "call %d on device %d put %r on the port/socket of device %d" % (i, d, r["stray"][0][1], r["stray"][0][0]))
+                break
+        for d, items in sorted(per.items()):
+            kind = case["devs"][d]
+            run.cov["oracle_evaluations"] += len(items)
+            if kind == "mpe":
+                seq = [c for _, c, _ in items]
+                b = mpe_oracle(seq, [r for _, _, r in items])
+                if b and (bad is None or items[b[0]][0] < bad[0]):
+                    others = sum(1 for e in per if e != d)
+                    bad = (items[b[0]][0], "mpe-channel", "MPEOutputDevice",
+                           "device %d (one of %d devices alive), judged on its own calls only: %s" % (d, others + 1, b[1]))
+            elif kind == "midi":
+                for i, c, r in items:
+                    exp = midi_expect(c["op"], c["args"])
+                    if exp is None:
+                        continue
+                    if not (r["raise"] is None and len(r["sent"]) == 1 and bytes_match(exp, r["sent"][0])):
+                        if bad is None or i < bad[0]:
+                            bad = (i, "midi-wrong-bytes", "MidiOutputDevice." + c["op"],
+                                   "device %d: %s%r sent %r on its port (raised: %s), expected %r" % (d, c["op"], tuple(c["args"]), r["sent"], r["raise"], exp))
+                        break
+            else:
+                for i, c, r in items:
+                    dg = [bytes.fromhex(h) for h in r["dgrams"]]
+                    why = ("the call raised %s" % r["raise"]) if r["raise"] is not None else \
+                        ("%d datagrams received, 1 expected" % len(dg)) if len(dg) != 1 else osc_oracle(c, dg[0])
+                    if why:
+                        if bad is None or i < bad[0]:
+                            bad = (i, "osc-wrong-datagram", "OSCOutputDevice." + c["op"], "device %d: %s" % (d, why))
+                        break
+        if bad:
+            i, kind, site, detail = bad
+            small = dict(case, calls=case["calls"][:i + 1])
+            run.violation({"kind": kind, "site": site, "multi": True}, {
+                "case": {"stratum": "multi", "payload": small},
+                "expected": "every device behaves as if it were alone: its own call subsequence decides what reaches its own port/socket "
+                            "(MPE: each held note of THIS device on a channel of its own in 1..15, released on that channel)",
+                "observed": {"failing_call_index": i, "call": case["calls"][i], "detail": detail,
+                             "wire_of_last_calls": [[case["calls"][j][0], res[j].get("sent", res[j].get("dgrams"))] for j in range(max(0, i - 5), i + 1)]},
+                "oracle": "single-device oracles applied per device to its own calls; nothing on another device's port",
+                "python": multi_snippet(small if len(small["calls"]) <= 80 else dict(small, calls=small["calls"][-80:], lazy=False))})
+        # model: the product of independent machines on the interleaved sequence (MPE), the stateless codecs per request
+        parts = []
+        mpe_calls = [[d] + [1 if c[0] == 5 else c[0]] + list(c[1:]) for (d, c) in case["calls"] if case["devs"][d] == "mpe"]
+        mpe_cap = [r["sent"] for (d, c), r in zip(case["calls"], res) if case["devs"][d] == "mpe"]
+        if mpe_calls:
+            parts.append("mpe_multi_agree %s %s" % (zll(mpe_calls), lst([zll(x) for x in mpe_cap])))
+        for (d, c), r in zip(case["calls"], res):
+            kind = case["devs"][d]
+            if kind == "midi":
+                exp = midi_expect(c["op"], c["args"])
+                if exp is None:
+                    if r["raise"] is not None and not r["sent"]:
+                        parts.append("port_agrees %s None" % req_term(c["op"], c["args"]))
+                    continue
+                parts.append("port_agrees %s (Some %s)" % (req_term(c["op"], c["args"]), zlist(r["sent"][0]))
+                             if r["raise"] is None and len(r["sent"]) == 1 else "false")
+            elif kind == "osc":
+                parts.append("dgram_agrees %s %s" % (osc_msg_term(c), zlist(list(bytes.fromhex(r["dgrams"][0]))))
+                             if r["raise"] is None and len(r["dgrams"]) == 1 else "false")
+        terms.append("(" + " && ".join(parts or ["true"]) + ")")
+        meta.append((case, res, bad is None, mpe_calls, mpe_cap))
+        run.sample({"devices": case["devs"], "calls(first 6)": case["calls"][:6], "wire(first 6)": [r.get("sent", r.get("dgrams")) for r in res[:6]]}, limit=3)
+    failing = run.coq_failing(HEADER_MULTI, terms, chunk=3, jobs=12)
+    run.cov["traces_validated_against_impl"] += sum(len(meta[i][0]["calls"]) for i in range(len(terms)) if i not in failing)
+    for i in failing:
+        case, res, ok, mpe_calls, mpe_cap = meta[i]
+        if not ok:
+            continue
+        at = None
+        if mpe_calls:
+            try:
+                at = run.coq_eval(HEADER_MULTI, "mpe_multi_first_diff %s %s" % (zll(mpe_calls), lst([zll(x) for x in mpe_cap])))
+            except CheckError:
+                pass
+        run.violation({"kind": "correspondence", "site": "multi-device"}, {
+            "broken": "correspondence model/implementation on several devices alive in one process (IO/MultiDevice.v: product of independent "
+                      "device machines; C19_multi_noninterference / C19_mpe_multi no longer speak about this code)",
+            "case": {"stratum": "multi", "payload": case}, "first_differing_mpe_call": at, "python": multi_snippet(dict(case, calls=case["calls"][:80]))}, found_input=False)
+
+
+def interleave(rng, seqs):
+    """random merge of the per-device sequences in bursts of 1..6 calls, per-device order kept"""
+    pos = [0] * len(seqs)
+    out = []
+    live = [d for d in range(len(seqs)) if seqs[d]]
+    while live:
+        d = rng.choice(live)
+        for _ in range(rng.choice([1, 1, 2, 3, 6])):
+            if pos[d] < len(seqs[d]):
+                out.append([d, seqs[d][pos[d]]])
+                pos[d] += 1
+        live = [e for e in live if pos[e] < len(seqs[e])]
+    return out
+
+
+MULTI_STRATA = ["mpe+mpe", "mpe+mpe", "mpe-full+mpe", "mpe x3-4", "mpe-dropped-then-new", "mpe+midi", "midi+midi", "osc+osc", "mixed"]
+
+
+def gen_multi_case(rng, i):
+    stratum = MULTI_STRATA[i % len(MULTI_STRATA)]
+    midi_seq = lambda n: [gen_midi_case(rng) for _ in range(n)]
+    osc_seq = lambda n: [gen_osc_case(rng) for _ in range(n)]
+    lazy = rng.random() < 0.5
+    if stratum == "mpe+mpe":
+        devs = ["mpe", "mpe"]
+        seqs = [gen_mpe_seq(rng, rng.randint(20, 150), rng.choice([2, 8, 15])) for _ in devs]
+    elif stratum == "mpe-full+mpe":          # one device holds 15 notes while the other plays
+        devs = ["mpe", "mpe"]
+        base = rng.randint(0, 100)
+        seqs = [[[0, base + k, 64] for k in range(15)] + [[2, base + 3, 100], [1, base + 7], [0, base + 20, 9], [5, base + 20], [1, base]],
+                gen_mpe_seq(rng, rng.randint(30, 120), rng.choice([4, 15]))]
+    elif stratum == "mpe x3-4":
+        devs = ["mpe"] * rng.choice([3, 4])
+        seqs = [gen_mpe_seq(rng, rng.randint(15, 80), rng.choice([3, 8, 15]), malformed=(k == 0 and rng.random() < 0.3)) for k in range(len(devs))]
+    elif stratum == "mpe-dropped-then-new":  # a device is left with notes held; a new device is created afterwards and used alone
+        devs = ["mpe", "mpe"]
+        pressed = rng.sample(range(128), rng.choice([3, 8, 15]))
+        first = []
+        for n in pressed:                        # well-formed, nothing released: the device is dropped with these notes held
+            first.append([0, n, rng.randint(1, 127)])
+            if rng.random() < 0.3:
+                first.append([rng.choice([2, 3]), rng.choice(pressed[:pressed.index(n) + 1]), rng.randint(0, 127)])
+        second = gen_mpe_seq(rng, rng.randint(20, 80), 15)
+        return {"devs": devs, "lazy": True, "calls": [[0, c] for c in first] + [[1, c] for c in second], "stratum": stratum}
+    elif stratum == "mpe+midi":
+        devs = ["mpe", "midi"] + (["mpe"] if rng.random() < 0.4 else [])
+        seqs = [gen_mpe_seq(rng, rng.randint(20, 100), rng.choice([4, 15])) if k == "mpe" else midi_seq(rng.randint(10, 60)) for k in devs]
+    elif stratum == "midi+midi":
+        devs = ["midi"] * rng.choice([2, 3])
+        seqs = [midi_seq(rng.randint(10, 60)) for _ in devs]
+    elif stratum == "osc+osc":
+        devs = ["osc"] * rng.choice([2, 3])
+        seqs = [osc_seq(rng.randint(5, 25)) for _ in devs]
+    else:
+        devs = ["mpe", "osc", "midi", "mpe"]
+        seqs = [gen_mpe_seq(rng, rng.randint(20, 60), 15), osc_seq(rng.randint(5, 15)), midi_seq(rng.randint(10, 30)), gen_mpe_seq(rng, rng.randint(20, 60), 8)]
+    return {"devs": devs, "lazy": lazy, "calls": interleave(rng, seqs), "stratum": stratum}
+
+
 # ---- running the strata --------------------------------------------------------------------------------------
-JUDGES = {"midi": judge_midi, "osc": judge_osc, "osch": judge_osch, "mpe": judge_mpe, "file": judge_file, "timeline": judge_timeline}
+JUDGES = {"midi": judge_midi, "osc": judge_osc, "osch": judge_osch, "mpe": judge_mpe, "file": judge_file, "timeline": judge_timeline,
+          "multi": judge_multi}
 
 
 def run_stratum(run, name, cases, shards=10):
@@ -1215,6 +1427,12 @@ def check(run):
     seqs += [gen_mpe_seq(rng, ln, cap) for ln, cap in shapes]
     seqs += [gen_mpe_seq(rng, 150, rng.choice([3, 15]), malformed=True) for _ in range(3 if quick else 12)]
     run_stratum(run, "mpe", seqs, shards=12)
+    # 3b. several devices alive in one process (MPE / MIDI port / OSC), created up-front or lazily, interleaved calls:
+    #     every device judged on its own call subsequence (non-interference), nothing on another device's port
+    fixed_multi = [{"devs": ["mpe", "mpe"], "lazy": False, "stratum": "mpe+mpe", "calls":
+                    [[0, [0, 60, 100]], [1, [0, 60, 90]], [0, [1, 60]], [1, [5, 60]]] + [[k % 2, [0, 40 + k // 2, 64]] for k in range(16)]
+                    + [[0, [0, 70 + k, 64]] for k in range(7)] + [[1, [1, 44]], [1, [0, 99, 1]], [0, [2, 41, 100]], [0, [1, 41]]]}]
+    run_stratum(run, "multi", fixed_multi + [gen_multi_case(rng, i) for i in range(45 if quick else 600)], shards=12)
     # 4. MIDI file: the note/velocity/channel fields of the saved messages (delta times are C16's)
     #    and WHEN each message lands: the absolute tick of every message of the saved file = the number of tick() calls
     #    before the request, with long silences (7..250 beats) between consecutive messages, several ticks_per_beat,
